@@ -104,9 +104,29 @@ fn doc_and_backend_space() -> Vec<Src> {
     out
 }
 
+/// declared names that look like generated ones, and unnamed fields that share an offset: whatever is
+/// accepted has to compile (no duplicate field, method or item names)
+fn generated_name_space() -> Vec<Src> {
+    let texts = [
+        "pub type T {\n    pub a: u32,\n    #[address(8)]\n    pub _field_4: u32,\n}\n",
+        "pub type T {\n    pub _field_4: u32,\n    #[address(8)]\n    pub b: u32,\n}\n",
+        "pub type T {\n    pub _field_0: u32,\n    _: u32,\n}\n",
+        "pub type E {\n}\npub type Z {\n    _: E,\n    _: u32,\n}\n",
+        "pub type E {\n}\npub type Z {\n    pub a: u32,\n    _: [E; 3],\n    _: E,\n    _: u32,\n}\n",
+        "#[size(16)]\npub type T {\n    pub _field_8: u64,\n}\n",
+        "pub type T {\n    vftable {\n        pub fn v(&self);\n    },\n    pub _field_8: u32,\n    #[address(16)]\n    pub b: u32,\n}\n",
+        "pub type T {\n    vftable {\n        pub fn a(&self);\n        #[index(2)]\n        pub fn _vfunc_3(&self);\n        #[index(5)]\n        pub fn b(&self);\n    },\n    pub x: *const u8,\n}\n",
+        "pub type T {\n    pub x: u32,\n    pub y: u32,\n}\npub type _T_size_check {\n    pub x: u32,\n    pub y: u32,\n}\n",
+        "pub type T {\n    pub x: u32,\n    pub y: u32,\n}\nimpl T {\n    #[address(0x10)]\n    pub fn as_ref(&self);\n    #[address(0x20)]\n    pub fn vftable(&self);\n}\n",
+        "#[address(0x10)]\npub extern x: u32;\n#[address(0x20)]\npub extern get_x: u32;\n",
+    ];
+    texts.iter().map(|t| Src { family: "generated_names", input: Input::single(t.to_string()), supply: vec![], features: vec![] }).collect()
+}
+
 fn sources(tier: &str) -> Vec<Src> {
     let mut out = marker_space();
     out.extend(doc_and_backend_space());
+    out.extend(generated_name_space());
     let plain = |family: &'static str, input: Input| Src { family, input, supply: vec![], features: vec![] };
     for i in checks::c17::all_inputs(tier).into_iter().step_by(if tier == "thorough" { 1 } else { 7 }) {
         out.push(plain("carry_over", i));
@@ -236,7 +256,7 @@ fn flush(rep: &mut Report, ps: usize, target: Target, rows: &mut Vec<Row>, rcase
 
 pub fn run(tier: &str, only: Option<&Value>) -> i32 {
     let mut rep = Report::new("C13", tier);
-    rep.rule = "Every accepted case of: the layout space with auxiliary module (C01/C02), a dedicated space of every subset of {copyable, cloneable, defaultable, packed} x fifteen field kinds (scalars, pointers, arrays up to 32, user structs with and without the same markers, enums with and without a default, extern type, pointer / array / nested arrays of plain and marked structs and enums, array of pointers) x same-module / cross-module, module documentation x rust prologue (imports, items, inner attributes) x epilogue in both backend forms (all must be accepted), the carry-over (C17), convention (C16), scoping (C11), enum (C08), hierarchy (C06/C07) and module-set (C19) spaces (quick: strided subsets of the larger ones) — is assembled into a crate (modules mirroring the input tree, extern types supplied) and type-checked in full by rustc for x86_64 (calling conventions normalised to \"C\") and, unmodified, for i686-pc-windows-msvc. Oracle: zero errors; deny-by-default lints count, warnings do not. distinct = distinct emitted crates".into();
+    rep.rule = "Every accepted case of: the layout space with auxiliary module (C01/C02), a dedicated space of every subset of {copyable, cloneable, defaultable, packed} x fifteen field kinds (scalars, pointers, arrays up to 32, user structs with and without the same markers, enums with and without a default, extern type, pointer / array / nested arrays of plain and marked structs and enums, array of pointers) x same-module / cross-module, module documentation x rust prologue (imports, items, inner attributes) x epilogue in both backend forms (all must be accepted), declared names that look like generated ones and unnamed fields sharing an offset, the carry-over (C17), convention (C16), scoping (C11), enum (C08), hierarchy (C06/C07) and module-set (C19) spaces (quick: strided subsets of the larger ones) — is assembled into a crate (modules mirroring the input tree, extern types supplied) and type-checked in full by rustc for x86_64 (calling conventions normalised to \"C\") and, unmodified, for i686-pc-windows-msvc. Oracle: zero errors; deny-by-default lints count, warnings do not. distinct = distinct emitted crates".into();
     rep.assumptions = vec!["outside the fragment by construction: non-power-of-two alignments and arrays longer than 32 in defaultable types are not generated".into()];
     let src = sources(tier);
     let layout = LayoutSpace::new_reduced(tier, true);
